@@ -25,6 +25,9 @@ type Limits struct {
 }
 
 type Violation struct {
+	Hidden    []uint64
+	Scheduled bool // the path contains schedule decisions
+	EngineConfirmed bool
 	Harness  string
 	Msg      string
 	Site     string // source position of the failing assertion / panic
@@ -42,6 +45,7 @@ type UFEntry struct {
 }
 
 type CoverWitness struct {
+	Scheduled bool // the path depends on scheduler / select choices that a native run cannot be forced to repeat
 	Tag     string
 	Inputs  []uint64
 	UFTable []UFEntry
@@ -114,6 +118,10 @@ type Interp struct {
 	replaced map[string]Value
 	curModel *Model
 	hidden   []*Term
+	// concrete re-execution of a recorded counterexample
+	concrete       []uint64
+	concreteHidden []uint64
+	concretePos    int
 	tolerantInit *ssa.Function
 	speculating bool
 }
